@@ -25,11 +25,17 @@ func init() {
 			"close-reaches-transport: every return of Channel.Close is preceded by Transport.Close, the timeout edge is the forced one, the forced path takes no read lock, each driver Close reaches Channel.Close on every path. " +
 			"NOT decided: that a blocked OS read returns when its descriptor is closed; the wall-clock bound of Close.",
 		Assumptions: []string{"Go memory model; sync and channel semantics", "Open is called once per driver and completes before other methods are used", "operation workers are ordered with their spawner by the go statement and the result channel (foreground class)"},
-		Mutants: c07Mutants,
+		Mutants:     c07Mutants,
 	})
 }
 
 var c07Mutants = []Mutant{
+	{ID: "C07-value-receiver", Desc: "Queue.GetDepth takes the queue by value", Rule: "C07/pointer-receivers",
+		Edits: []Edit{{File: "util/queue.go", Old: "func (q *Queue) GetDepth() int {", New: "func (q Queue) GetDepth() int {"}}},
+	{ID: "C07-poller-cancel-not-deferred", Desc: "sendRPC no longer defers the cancel of its poller context", Rule: "C07/cancel-released",
+		Edits: []Edit{{File: "driver/netconf/rpc.go", Old: "\tdefer cancel()\n\n\tgo func() {\n\t\tdefer close(done)", New: "\ttimer := time.AfterFunc(d.Channel.GetTimeout(op.Timeout), cancel)\n\n\tdefer timer.Stop()\n\n\tgo func() {\n\t\tdefer close(done)"}, {File: "driver/netconf/rpc.go", Old: "\ttimer := time.NewTimer(d.Channel.GetTimeout(op.Timeout))\n\n\tselect {\n\tcase err = <-d.errs:\n\t\treturn nil, err\n\tcase <-timer.C:", New: "\tselect {\n\tcase err = <-d.errs:\n\t\treturn nil, err\n\tcase <-ctx.Done():"}}},
+	{ID: "C07-system-close-reaps", Desc: "System.Close waits for the child after signalling it", Rule: "C07/close-no-wait",
+		Edits: []Edit{{File: "transport/system.go", Old: "\t\terr = t.c.Process.Kill()\n\t\tif err != nil {\n\t\t\treturn err\n\t\t}\n", New: "\t\terr = t.c.Process.Kill()\n\t\tif err != nil {\n\t\t\treturn err\n\t\t}\n\n\t\t_ = t.c.Wait()\n"}}},
 	{ID: "C07-no-done-poll", Desc: "reader no longer polls done after a failed read", Rule: "C07/K6",
 		Edits: []Edit{{File: "channel/read.go", Old: "\t\tif err != nil {\n\t\t\tselect {\n\t\t\tcase <-c.done:\n\t\t\t\t// this prevents us from ever writing to, what would in this case be, a closed\n\t\t\t\t// errs channel. also if we are \"done\" we probably only got an error about transport\n\t\t\t\t// dying so we can safely ignore that\n\t\t\t\treturn\n\t\t\tdefault:\n\t\t\t}\n\n", New: "\t\tif err != nil {\n"}}},
 	{ID: "C07-timeout-unforced", Desc: "timeout edge of Channel.Close closes unforced", Rule: "C07/close-reaches-transport",
@@ -194,6 +200,12 @@ func postStartReach(c *Ctx, roots []*ssa.Function, st *starterInfo, edgeOK func(
 
 func runC07(c *Ctx, r *Report) {
 	importFoundation(c, r, "C07", "queue")
+	r.Rule("C07/cancel-released", "the cancel function of every context the library creates is deferred or called on every path to a return (a poller watching the context does not outlive the operation)", 6)
+	checkCancelDeferred(c, r, "C07/cancel-released")
+	r.Rule("C07/close-no-wait", "Close of each built-in transport calls no wait-for-peer API: it returns in bounded time whatever the peer does", 3)
+	checkCloseNoWaitAs(c, r, "C07/close-no-wait")
+	r.Rule("C07/pointer-receivers", "every method of a struct that carries a lock or a once has a pointer receiver (a value receiver copies the guarded fields outside the lock)", 3)
+	checkPointerReceivers(c, r, "C07/pointer-receivers", nil)
 	r.Rule("C07/K1", "a struct-field channel is not closed by one thread class while another class sends on it", 1)
 	r.Rule("C07/K2", "a struct-field channel is closed in an exported method only under a once-guard", 1)
 	r.Rule("C07/K3", "no blocking send/receive on an unbuffered struct-field channel on the API thread outside a select with an alternative", 1)
@@ -698,7 +710,7 @@ func checkDonePoll(c *Ctx, r *Report, cl *classes) {
 
 type accessRec struct {
 	fieldAccess
-	Held lockSet
+	Held     lockSet
 	PreStart bool
 }
 
